@@ -65,7 +65,11 @@ pub fn encode(lat: f64, lon: f64, odd: bool) -> Cpr {
     let i = u32::from(odd);
     let dl = dlat(i);
     let yz = (NB * modp(lat, dl) / dl + 0.5).floor();
-    let rlat = dl * (yz / NB + (lat / dl).floor());
+    // Rlat = Dlat * (YZ/2^17 + floor(lat/Dlat)); at a latitude that is (within rounding) a zone
+    // boundary floor() and MOD() can disagree about the zone in floating point, so the zone index
+    // is recovered from the rounded YZ instead: j = nearest integer to lat/Dlat - YZ/2^17.
+    let j = (lat / dl - yz / NB).round();
+    let rlat = dl * (yz / NB + j);
     let nli = nl(rlat).saturating_sub(i).max(1);
     let dlon = 360.0 / f64::from(nli);
     let xz = (NB * modp(lon, dlon) / dlon + 0.5).floor();
